@@ -76,6 +76,10 @@ def concretize_args(args, kwargs, model):
             return RecordingShuffle()
         if isinstance(v, dict):
             return {k: conv(x) for k, x in v.items()}
+        from .values import DType
+        if isinstance(v, DType):
+            import torch
+            return getattr(torch, v.name, torch.float32)
         if isinstance(v, Opaque) and 'concretize' in v.attrs:
             return v.attrs['concretize'](model)
         return v
